@@ -106,6 +106,17 @@ class Run:
         *patterns* a refactoring may legitimately remove or move; falling below
         them only means that a rule had less to decide, which is recorded under
         `unknowns` in the evidence and never fails a run."""
+        if hard:
+            # a front-end floor guards against a parser / resolver that silently
+            # sees (almost) nothing; it is set well below the hand-confirmed count
+            # (half of it), because merging classes, removing a memoised method
+            # or moving a kernel from C to numpy is a legitimate change.  The
+            # confirmed count itself is kept as a soft floor.
+            if got < least:
+                self.unknowns.append(
+                    f"{what}: {got} analysed where {least} were confirmed on the "
+                    f"pinned tree")
+            least = max(1, least // 2)
         self.extra.setdefault("floors", {})[what] = {"got": got, "floor": least,
                                                      "hard": hard}
         if got < least:
